@@ -142,11 +142,15 @@ def evalAggregate {κ : Type} [DecidableEq κ] (key : Profile → κ) (fn : Opti
     else
       -- `*` is replaced by the integer 1
       let listExpr : ArgExpr := match arg with | .star => .const (profileOf (.int 1)) | a => a
-      -- COUNT of a literal never looks at the records (and never at the DISTINCT option)
+      let allColumns : Bool := match arg with | .star => true | _ => false
+      -- COUNT of a literal does not look at the records: the number of records is the count of a literal —
+      -- only when duplicates are not removed (`allColumns || !expr.IsDistinct()`, the repair of finding F109)
       let shortcut : Option Res :=
         match fn, listExpr with
         | some .count, .const v =>
-          if !v.isNull && !isUnknown v && c.inRange then some (.int (groupLen c.record)) else some (.int 0)
+          if allColumns || !distinct then
+            (if !v.isNull && !isUnknown v && c.inRange then some (.int (groupLen c.record)) else some (.int 0))
+          else none
         | _, _ => none
       match shortcut with
       | some r => .ok r
